@@ -33,6 +33,9 @@ pub fn token22_id() -> Pubkey {
 pub fn marginfi_id() -> Pubkey {
     marginfi::ID
 }
+pub fn solend_id() -> Pubkey {
+    solend_mocks::ID
+}
 pub fn ix_sysvar_id() -> Pubkey {
     sysvar::instructions::ID
 }
@@ -435,6 +438,8 @@ fn cpi_dispatch(
             c.caller_program = caller;
         });
         r
+    } else if pid == solend_id() {
+        solend_stub(&callee_infos, &instruction.data)
     } else {
         Err(ProgramError::Custom(ERR_UNKNOWN_PROGRAM))
     };
@@ -477,6 +482,54 @@ fn cpi_dispatch(
     }
     record(res.is_ok());
     res
+}
+
+/// Stub of the Solend venue (a third-party program that is not in the repository): only
+/// `deposit_reserve_liquidity_and_obligation_collateral`, and only its book-keeping - the reserve's
+/// available liquidity and collateral supply grow, the obligation's first deposit grows by the
+/// collateral the reserve's own exchange rate yields.  No tokens move (they stay in the marginfi
+/// liquidity vault); everything on the marginfi side of the CPI is real code.
+fn solend_stub(accounts: &[AccountInfo], data: &[u8]) -> ProgramResult {
+    use solend_mocks::state::{SolendMinimalReserve, OBLIGATION_LEN, RESERVE_LEN};
+    if data.len() != 9 || data[0] != solend_mocks::cpi::DEPOSIT_DISCRIMINATOR || accounts.len() < 14 {
+        return Err(ProgramError::InvalidInstructionData);
+    }
+    let amount = u64::from_le_bytes(data[1..9].try_into().unwrap());
+    let reserve = &accounts[2];
+    let obligation = &accounts[8];
+    if *reserve.owner != solend_id() || *obligation.owner != solend_id() {
+        return Err(ProgramError::IllegalOwner);
+    }
+    if !accounts[9].is_signer || !accounts[12].is_signer {
+        return Err(ProgramError::MissingRequiredSignature);
+    }
+    let collateral = {
+        let d = reserve.data.borrow();
+        if d.len() != RESERVE_LEN || d[0] != 1 {
+            return Err(ProgramError::InvalidAccountData);
+        }
+        let r: &SolendMinimalReserve = bytemuck::from_bytes(&d[1..RESERVE_LEN]);
+        r.liquidity_to_collateral(amount).map_err(|_| ProgramError::ArithmeticOverflow)?
+    };
+    {
+        let mut d = reserve.data.borrow_mut();
+        let avail = u64::from_le_bytes(d[171..179].try_into().unwrap());
+        let supply = u64::from_le_bytes(d[259..267].try_into().unwrap());
+        let a2 = avail.checked_add(amount).ok_or(ProgramError::ArithmeticOverflow)?;
+        let s2 = supply.checked_add(collateral).ok_or(ProgramError::ArithmeticOverflow)?;
+        d[171..179].copy_from_slice(&a2.to_le_bytes());
+        d[259..267].copy_from_slice(&s2.to_le_bytes());
+    }
+    {
+        let mut d = obligation.data.borrow_mut();
+        if d.len() < OBLIGATION_LEN || d[0] != 1 {
+            return Err(ProgramError::InvalidAccountData);
+        }
+        let dep = u64::from_le_bytes(d[236..244].try_into().unwrap());
+        let d2 = dep.checked_add(collateral).ok_or(ProgramError::ArithmeticOverflow)?;
+        d[236..244].copy_from_slice(&d2.to_le_bytes());
+    }
+    Ok(())
 }
 
 fn system_program_stub(accounts: &[AccountInfo], data: &[u8]) -> ProgramResult {
